@@ -250,6 +250,23 @@ theorem C17_reprint (t : Trace) (h : TraceWF t) :
 /-- non-vacuity: a two-level trace inside the domain -/
 example : TraceWF ⟨⟨some ⟨[97, 46, 98], some [120, 58, 32, 121]⟩, [⟨[97], [109], 7, some [70], none⟩]⟩,
                    [⟨some ⟨[99], none⟩, []⟩]⟩ := by
-  sorry
+  refine ⟨⟨?_, ?_⟩, Or.inl rfl, ?_⟩
+  · intro e he
+    cases he
+    exact ⟨by decide, by decide, by decide, by decide⟩
+  · intro f hf
+    simp only [List.mem_singleton] at hf
+    subst hf
+    exact ⟨by decide, by decide, by decide, ⟨[70], rfl, by decide, by decide⟩,
+      ⟨by decide, by decide⟩, by decide, rfl⟩
+  · intro c hc
+    simp only [List.mem_singleton] at hc
+    subst hc
+    refine ⟨⟨?_, ?_⟩, rfl⟩
+    · intro e he
+      cases he
+      exact ⟨by decide, by decide, by decide, by decide⟩
+    · intro f hf
+      cases hf
 
 end PG
